@@ -172,6 +172,11 @@ def worker_main(argv):
         resource.setrlimit(resource.RLIMIT_AS, (gb << 30, gb << 30))
     except Exception:
         pass
+    if isinstance(spec, dict) and spec.get('tz'):
+        # a shard may ask to run in another process time zone (POSIX rule string: no zone database needed); nothing evaluated may depend on it
+        import time as _time
+        os.environ['TZ'] = spec['tz']
+        _time.tzset()
     rec = Rec(check_id, spec)
     reach = None
     try:
